@@ -13,7 +13,9 @@ import Cellml.C09.Eval
     * `hasEq eqs v` — `v` is the left-hand side of an equation; `isStateOrFree eqs v` — `v` is the state or the free
       variable of some ODE of the system;
     * `DepOn eqs strip u v` — `u` is referenced on the right-hand side of `v`'s equation (`strip = true`: and still
-      is after number substitution); `TC R` — transitive closure (at least one step) of `R`;
+      is after number substitution, `Eqn.numRefs` — a substitution happens only in an equation that holds a `Quantity`,
+      `Eqn.hasQ`; any other equation keeps its references, as in the code: `if subs_dict:`);
+      `TC R` — transitive closure (at least one step) of `R`;
     * `Needed eqs vars recurse strip v` — `v` is requested, or some request depends on `v` (`recurse = true`:
       through `TC (DepOn …)`, otherwise directly);
     * `Valid key eqs` — what `Model.graph` asserts: left-hand sides (and their `str`) pairwise different, every
@@ -168,7 +170,7 @@ theorem eqsfor_order (key : Node → String) (eqs : List Eqn) (vars : List Node)
 theorem eqsfor_order_all (key : Node → String) (eqs : List Eqn) (vars : List Node) (strip : Bool)
     (res : List Node) (h : getEquationsFor key eqs vars true strip = .ok res)
     (i : Nat) (e : Eqn) (he : e ∈ eqs) (hi : res[i]? = some e.lhs) :
-    ∀ u ∈ e.refs, (strip = true → u ∈ e.refsNum) →
+    ∀ u ∈ e.refs, (strip = true → u ∈ e.numRefs) →
       u ∈ res.take i ∨ (hasEq eqs u = false ∧ isStateOrFree eqs u = true) :=
   fun u hu hn => eqsfor_order key eqs vars strip res h i e.lhs hi u ⟨e, he, rfl, hu, hn⟩
 
@@ -318,6 +320,39 @@ theorem strip_values_partial {K : Type} (key : Node → String) (eqs : List Eqn)
   obtain ⟨i, hi⟩ := List.mem_iff_getElem?.mp hv
   exact key' (i + 1) i v (Nat.lt_succ_self i) hi
 
+/-- **An equation without a `Quantity` is not touched by the stripped variant**: it depends on exactly what it
+    depended on before, whatever `refsNum` was handed in for it (python: `if subs_dict:` skips the equation). -/
+theorem strip_keeps_plain_equation (eqs : List Eqn) (hnd : (eqs.map (·.lhs)).Nodup) (e : Eqn) (he : e ∈ eqs)
+    (hq : e.hasQ = false) (u : Node) : DepOn eqs true u e.lhs ↔ DepOn eqs false u e.lhs := by
+  refine ⟨fun h => h.weaken, ?_⟩
+  rintro ⟨e', he', hl, hr, _⟩
+  have h1 := eqnOf_of_mem hnd he'
+  have h2 := eqnOf_of_mem hnd he
+  rw [hl, h2] at h1
+  cases h1
+  exact ⟨e, he, rfl, hr, fun _ => by simp [Eqn.numRefs, hq, hr]⟩
+
+/-- … so on a system with no `Quantity` at all the graph with numbers IS the graph, and both variants of
+    `get_equations_for` return the same list. -/
+theorem strip_noop_without_quantities (key : Node → String) (eqs : List Eqn) (vars : List Node) (recurse : Bool)
+    (hq : ∀ e ∈ eqs, e.hasQ = false) :
+    (∀ g, stripGraph eqs g = g) ∧
+    getEquationsFor key eqs vars recurse true = getEquationsFor key eqs vars recurse false := by
+  have hg : ∀ g, stripGraph eqs g = g := by
+    intro g
+    cases g with
+    | mk ns es =>
+      simp only [stripGraph, Graph.mk.injEq, true_and, List.filter_eq_self]
+      intro ed _
+      unfold keepEdge
+      split
+      · rename_i q hq'
+        have := hq q (List.mem_of_find?_eq_some hq')
+        simp [this]
+      · rfl
+  refine ⟨hg, ?_⟩
+  simp only [getEquationsFor, graphFor, hg, if_true, Bool.false_eq_true, if_false]
+
 /-- If the unstripped call succeeds so does the stripped one (removing edges cannot create a cycle). -/
 theorem strip_ok_of_plain_ok (key : Node → String) (eqs : List Eqn) (vars : List Node) (recurse : Bool)
     (resP : List Node) (hP : getEquationsFor key eqs vars recurse false = .ok resP) :
@@ -399,6 +434,12 @@ example : getEquationsFor diamondKey diamond [2] true false = .ok [3, 2] := by d
 /-- stripped: `c` no longer needs `a` -/
 example : getEquationsFor diamondKey diamond [2] true true = .ok [2] := by decide +kernel
 example : getEquationsFor diamondKey diamond [0] true true = .ok [3, 1, 2, 0] := by decide +kernel
+/-- the guard `if subs_dict:`: the same `c = …` WITHOUT a `Quantity` keeps its reference to `a` even when handed an
+    empty `refsNum` (the code never looks at it); before the model had the guard it answered `[2]` here -/
+example : getEquationsFor diamondKey
+    [ { lhs := 0, refs := [1, 2], refsNum := [1, 2] }, { lhs := 1, refs := [3], refsNum := [3] },
+      { lhs := 2, refs := [3], refsNum := [], hasQ := false }, { lhs := 3, refs := [], refsNum := [] } ]
+    [2] true true = .ok [3, 2] := by decide +kernel
 /-- a request that is not a node; a cyclic system -/
 example : getEquationsFor diamondKey diamond [7] true false = .error .notInGraph := by decide +kernel
 example : getEquationsFor diamondKey [{ lhs := 0, refs := [1], refsNum := [1] }, { lhs := 1, refs := [0], refsNum := [] }]
@@ -448,7 +489,7 @@ example : run diamondRhs [3, 1, 2, 0] (fun _ => 0) 0 = 3 ∧ run diamondRhsNum [
 example : ReadsOnly diamond false diamondRhs ∧ ReadsOnly diamond true diamondRhsNum ∧
     (∀ v ρ, hasEq diamond v = true → diamondRhsNum v ρ = diamondRhs v ρ) := by
   have dep : ∀ (strip : Bool) (u v : Node) (e : Eqn), e ∈ diamond → e.lhs = v → u ∈ e.refs →
-      (strip = true → u ∈ e.refsNum) → DepOn diamond strip u v := fun _ _ _ e he h1 h2 h3 => ⟨e, he, h1, h2, h3⟩
+      (strip = true → u ∈ e.numRefs) → DepOn diamond strip u v := fun _ _ _ e he h1 h2 h3 => ⟨e, he, h1, h2, h3⟩
   refine ⟨?_, ?_, ?_⟩
   · intro v ρ ρ' h
     match v with
@@ -464,11 +505,11 @@ example : ReadsOnly diamond false diamondRhs ∧ ReadsOnly diamond true diamondR
   · intro v ρ ρ' h
     match v with
     | 0 =>
-        have h1 := h 1 (dep true 1 0 { lhs := 0, refs := [1, 2], refsNum := [1, 2] } (by simp [diamond]) rfl (by simp) (by simp))
-        have h2 := h 2 (dep true 2 0 { lhs := 0, refs := [1, 2], refsNum := [1, 2] } (by simp [diamond]) rfl (by simp) (by simp))
+        have h1 := h 1 (dep true 1 0 { lhs := 0, refs := [1, 2], refsNum := [1, 2] } (by simp [diamond]) rfl (by simp) (by simp [Eqn.numRefs]))
+        have h2 := h 2 (dep true 2 0 { lhs := 0, refs := [1, 2], refsNum := [1, 2] } (by simp [diamond]) rfl (by simp) (by simp [Eqn.numRefs]))
         simp [diamondRhsNum, h1, h2]
     | 1 =>
-        have h3 := h 3 (dep true 3 1 { lhs := 1, refs := [3], refsNum := [3] } (by simp [diamond]) rfl (by simp) (by simp))
+        have h3 := h 3 (dep true 3 1 { lhs := 1, refs := [3], refsNum := [3] } (by simp [diamond]) rfl (by simp) (by simp [Eqn.numRefs]))
         simp [diamondRhsNum, h3]
     | 2 => simp [diamondRhsNum]
     | n + 3 => simp [diamondRhsNum]
@@ -487,7 +528,7 @@ example : SameSystem diamond diamond' := by
     rcases he with rfl | rfl | rfl | rfl
     · exact ⟨{ lhs := 0, refs := [2, 1], refsNum := [2, 1] }, by simp [diamond'], rfl, rfl,
         by intro u; simp [or_comm],
-        by intro u; simp [or_comm]⟩
+        by intro u; simp [Eqn.numRefs, or_comm]⟩
     · exact ⟨_, by simp [diamond'], rfl, rfl, fun _ => Iff.rfl, fun _ => Iff.rfl⟩
     · exact ⟨_, by simp [diamond'], rfl, rfl, fun _ => Iff.rfl, fun _ => Iff.rfl⟩
     · exact ⟨_, by simp [diamond'], rfl, rfl, fun _ => Iff.rfl, fun _ => Iff.rfl⟩
@@ -498,7 +539,7 @@ example : SameSystem diamond diamond' := by
     · exact ⟨_, by simp [diamond], rfl, rfl, fun _ => Iff.rfl, fun _ => Iff.rfl⟩
     · exact ⟨{ lhs := 0, refs := [1, 2], refsNum := [1, 2] }, by simp [diamond], rfl, rfl,
         by intro u; simp [or_comm],
-        by intro u; simp [or_comm]⟩
+        by intro u; simp [Eqn.numRefs, or_comm]⟩
     · exact ⟨_, by simp [diamond], rfl, rfl, fun _ => Iff.rfl, fun _ => Iff.rfl⟩
 
 /-- … and those of `lexTopo_perm` / `lexTopo_insertion_independent` by its graph. -/
